@@ -29,21 +29,14 @@ Proof. exact method_is_spec_peers. Qed.
 Theorem C14_authenticated_is_spec : forall i r : sel_params, auth_ok (i, r) = true.
 Proof. exact authenticated_is_spec. Qed.
 
-(** FULL STATEMENT of the passkey roles of LE legacy Passkey Entry (who displays, who inputs):
-    refuted by the generated [get_pin_code_source] (KNOWN-FINDING legacy-passkey-keyboarddisplay-never-inputs). *)
-Definition C14_legacy_passkey_roles_statement : Prop := forall i r : sel_params, roles_ok (i, r) = true.
-
-Theorem C14_legacy_passkey_roles_refuted : exists i r : sel_params, roles_ok (i, r) = false.
-Proof. exact legacy_passkey_roles_refuted. Qed.
-
-(** ... proved on the complement of the finding's class, which is exactly where it fails. *)
-Theorem C14_legacy_passkey_roles_partial :
-  forall i r : sel_params, kd_must_input (i, r) = false -> roles_ok (i, r) = true.
-Proof. exact legacy_passkey_roles_partial. Qed.
-
-Theorem C14_legacy_passkey_roles_class_exact :
-  forall i r : sel_params, roles_ok (i, r) = negb (kd_must_input (i, r)).
-Proof. exact legacy_passkey_roles_class_exact. Qed.
+(** The passkey roles of LE legacy Passkey Entry (who displays, who inputs: Table 2.8) are the
+    specification's in EVERY cell: the decision GENERATED from [get_pin_code] gives "typed by the
+    user" exactly for the device Table 2.8 makes input and "generated and displayed" exactly for
+    the device it makes display.  (Full theorem since the repair "fix: SMP get_pin_code lets a
+    KeyboardDisplay device input the legacy passkey where Table 2.8 says it inputs"; on the
+    unrepaired function it fails for the five KeyboardDisplay-must-input cells.) *)
+Theorem C14_legacy_passkey_roles : forall i r : sel_params, roles_ok (i, r) = true.
+Proof. exact legacy_passkey_roles. Qed.
 
 (** ======================= Stage B: the two-party run =======================
     [run pi pr sc] : the central with parameters [pi] initiates pairing with the peripheral with
@@ -131,7 +124,7 @@ Proof. exact failure_leaves_nothing. Qed.
     numeric comparison makes BOTH sides fail. *)
 Theorem C14_wrong_passkey_fails_both :
   forall pi pr sc, wf_params pi -> wf_params pr ->
-  (sel_method pi pr = 1 /\ eff_pin (a_iocap pi) (u_gen_i sc) (u_typed_i sc) <> eff_pin (a_iocap pr) (u_gen_r sc) (u_typed_r sc))
+  (sel_method pi pr = 1 /\ eff_pin_i pi pr sc <> eff_pin_r pi pr sc)
   \/ (sel_method pi pr = 5 /\ u_typed_i sc <> u_typed_r sc)
   \/ (sel_method pi pr = 4 /\ (u_nc_i sc && u_nc_r sc) = false) ->
   failure (r_i (run pi pr sc)) = true /\ failure (r_r (run pi pr sc)) = true.
@@ -141,11 +134,24 @@ Proof. exact wrong_passkey_fails_both. Qed.
 Theorem C14_correct_interaction_succeeds :
   forall pi pr sc, wf_params pi -> wf_params pr ->
   sel_method pi pr <> 2 -> sel_method pi pr <> 6 ->
-  (sel_method pi pr = 1 -> eff_pin (a_iocap pi) (u_gen_i sc) (u_typed_i sc) = eff_pin (a_iocap pr) (u_gen_r sc) (u_typed_r sc)) ->
+  (sel_method pi pr = 1 -> eff_pin_i pi pr sc = eff_pin_r pi pr sc) ->
   (sel_method pi pr = 5 -> u_typed_i sc = u_typed_r sc) ->
   (sel_method pi pr = 4 -> u_nc_i sc = true /\ u_nc_r sc = true) ->
   success (r_i (run pi pr sc)) = true /\ success (r_r (run pi pr sc)) = true.
 Proof. exact correct_interaction_succeeds. Qed.
+
+(** In particular when the user follows the SPECIFICATION's roles: [P] is the session passkey, the
+    device Table 2.8 makes display generates it, the device(s) it makes input get it typed in
+    (whatever the other scripted values are).  Covers all 12 Passkey Entry cells of Table 2.8,
+    including those where a KeyboardDisplay device inputs. *)
+Theorem C14_spec_roles_user_succeeds :
+  forall pi pr sc si sr ri rr P, wf_params pi -> wf_params pr ->
+  sel_of_peer (peer_of_params pi) = Some si -> sel_of_peer (peer_of_params pr) = Some sr ->
+  spec_method si sr = (false, Passkey ri rr) ->
+  follows_roles ri rr sc P ->
+  sel_method pi pr = 1
+  /\ success (r_i (run pi pr sc)) = true /\ success (r_r (run pi pr sc)) = true.
+Proof. exact spec_roles_user_succeeds. Qed.
 
 (** ... and the two OOB methods (not implemented) fail on both sides with "OOB not available". *)
 Theorem C14_oob_fails_both :
